@@ -147,6 +147,8 @@ pub fn value_at(a: &ArrayRef, i: usize) -> Value {
         DataType::UInt64 => json!({"k":"i","v":a.as_any().downcast_ref::<UInt64Array>().unwrap().value(i)}),
         DataType::UInt32 => json!({"k":"i","v":a.as_any().downcast_ref::<UInt32Array>().unwrap().value(i)}),
         DataType::Boolean => json!({"k":"b","v": a.as_any().downcast_ref::<BooleanArray>().unwrap().value(i) as i64}),
+        // UNION of BIGINT with an unsigned window column (rank / row_number) is coerced to Decimal128(20, 0)
+        DataType::Decimal128(_, 0) => json!({"k":"i","v": a.as_any().downcast_ref::<Decimal128Array>().unwrap().value(i) as i64}),
         DataType::Utf8 => s(a.as_any().downcast_ref::<StringArray>().unwrap().value(i)),
         DataType::LargeUtf8 => s(a.as_any().downcast_ref::<LargeStringArray>().unwrap().value(i)),
         DataType::Utf8View => s(a.as_any().downcast_ref::<StringViewArray>().unwrap().value(i)),
